@@ -10,7 +10,7 @@ import z3
 
 from . import sym
 from .sym import PyExc, SBool, SInt, SReal, Unsupported, deep_sym, tb, tz, wrap
-from .symseq import ConstSeq, EnumSeq, Grid, MapSeq, SymRange, SymSeq, ZipSeq
+from .symseq import ConstSeq, EnumSeq, Grid, MapSeq, SymHashSet, SymRange, SymSeq, ZipSeq
 
 
 def install(interp):
@@ -96,6 +96,8 @@ def install(interp):
             return isinstance(True, c)
         if isinstance(v, SReal):
             return isinstance(0.5, c)
+        if isinstance(v, SymHashSet):
+            return isinstance(set(), c)
         if isinstance(v, SymSeq):
             proto = [] if v.is_list else ()
             if v.lazy:
@@ -326,6 +328,8 @@ def install(interp):
             return float
         if isinstance(v, SymSeq):
             return list if v.is_list else tuple
+        if isinstance(v, SymHashSet):
+            return set
         return type(v)
 
     def py_callable(v):
@@ -354,7 +358,7 @@ def install(interp):
         return dict(*a, **k)
 
     def py_set(x=()):
-        return set(interp.iterate(x))
+        return interp.make_set(interp.iterate(x))
 
     def py_reversed(x):
         if isinstance(x, SymSeq):
@@ -470,6 +474,16 @@ def install(interp):
             acc = interp.call(f, [acc, v], {})
         return acc
 
+    def np_isnan(x):
+        if isinstance(x, (SInt, SBool)) or isinstance(x, int):
+            return False
+        if isinstance(x, SReal):
+            return False
+        import numpy as np
+
+        return np.isnan(x)
+
+    NO["numpy.isnan"] = np_isnan
     NO["functools.reduce"] = f_reduce
     NO["_functools.reduce"] = f_reduce
 
